@@ -31,14 +31,21 @@ ASSUMPTIONS = [
 class RoutingFile(object):
     """A binary 'file' that appends to the current side's byte buffer."""
 
-    def __init__(self, interp_ref):
+    def __init__(self, interp_ref, text=False):
         self.interp_ref = interp_ref
         self.sides = {}
         self.order = []  # (side, line) in emission order
+        self.text = text  # a text-mode file: takes str only (the bytes are its UTF-8 encoding)
 
     def write(self, data):
-        if not isinstance(data, bytes):
+        if self.text:
+            if not isinstance(data, str):
+                raise TypeError("write() argument must be str, not %s" % type(data).__name__)
+            data = data.encode("utf-8")
+        if isinstance(data, str):
             raise TypeError("binary file")
+        if isinstance(data, (bytearray, memoryview)):
+            data = bytes(data)  # real binary files take any bytes-like object and copy it at once
         side = self.interp_ref[0].side if self.interp_ref[0] is not None else 0
         if not data:
             return  # FileDestination's mode probe
@@ -103,7 +110,7 @@ def check_forest(ctx, it, messages, emission_order=None):
 def body_E1(ctx):
     sh = ctx.shard
     ref = [None]
-    rf = RoutingFile(ref)
+    rf = RoutingFile(ref, text=bool(sh.get("text_file")))
     _output.Logger._destinations.add(_output.FileDestination(file=rf))
     it = I.Interp(ctx, sh.get("N", 4), sh.get("D", 3), allow_handoff=bool(sh.get("handoff")))
     ref[0] = it
@@ -240,7 +247,7 @@ def _e1_shards(tier):
         for idtext in (0, 1):
             shards.append({"N": N if tier == "quick" else 5, "D": D, "handoff": 1, "reverse_sides": rev, "idtext": idtext})
     # re-entering the current action's context()/run(); hand-offs whose work runs after the program's blocks ended
-    for extra in ({"reenter": 1}, {"reenter": 1, "reenter_style": 1}, {"deferred": 1, "handoff": 1}, {"deferred": 1, "reverse_sides": 1}, {"empty_type": 1}, {"empty_type": 1, "open": 1}, {"names": 1}, {"explicit_logger": 1}, {"unentered": 1}, {"unentered": 1, "exc": 7, "ext": 1}, {"handoff": 1, "remote_type": 1}, {"handling": 1}, {"real_uuid": 1, "open": 5}):
+    for extra in ({"reenter": 1}, {"reenter": 1, "reenter_style": 1}, {"deferred": 1, "handoff": 1}, {"deferred": 1, "reverse_sides": 1}, {"empty_type": 1}, {"empty_type": 1, "open": 1}, {"names": 1}, {"explicit_logger": 1}, {"unentered": 1}, {"unentered": 1, "exc": 7, "ext": 1}, {"handoff": 1, "remote_type": 1}, {"handling": 1}, {"real_uuid": 1, "open": 5}, {"text_file": 1}, {"text_file": 1, "msg": 2}):
         base = dict(extra, N=N if tier == "quick" else 5, D=D)
         for pre in enumerate_prefixes(body_E1, "X", {}, base, 2):
             shards.append(dict(base, prefix=pre))
@@ -263,7 +270,7 @@ OBLIGATIONS = [
         twin=[{"N": 4, "D": 3, "twin_label": "failed-nested"}],
         timeout={"quick": 100, "thorough": 900},
         bounds={
-            "quick": "all op sequences (open/close/message/raise-caught-j-levels-out) of <= 4 ops, depth <= 3, under 21 style profiles (baseline + every single-dimension variation of open style(6)/message style(5)/exception class(9)/extra finish(3)); hand-offs with separate files, both merge orders, bytes/text ids; re-entry of the current action's context()/run(); deferred hand-offs (id made inside an action, work logged after it ended); actions with the default empty action type; unusual field names (non-ASCII, spaces, names eliot uses on other message kinds); a Logger passed positionally; actions started, used and finished without ever being entered; continue_task with a custom action type; every <= 2-op program with per-step free styles",
+            "quick": "all op sequences (open/close/message/raise-caught-j-levels-out) of <= 4 ops, depth <= 3, under 22 style profiles (baseline + every single-dimension variation of open style(6)/message style(5)/exception class(10)/extra finish(3)); hand-offs with separate files, both merge orders, bytes/text ids; re-entry of the current action's context()/run(); deferred hand-offs (id made inside an action, work logged after it ended); actions with the default empty action type; unusual field names (non-ASCII, spaces, names eliot uses on other message kinds); a Logger passed positionally; a text-mode log file; actions started, used and finished without ever being entered; continue_task with a custom action type; every <= 2-op program with per-step free styles",
             "thorough": "<= 6 ops, depth <= 4 under the same 20 profiles; hand-offs <= 5 ops; free styles <= 3 ops",
         },
     ),
